@@ -364,7 +364,11 @@ func classify(c Case) (bool, []string) {
 	labels.Add(strings.ContainsAny(string(c.Template), "\x00\xff"), "tmpl:nul-or-nonutf8")
 	labels.Add(c.NoLoad, "noload")
 	if c.Origin != "" {
-		labels = append(labels, "origin:"+strings.SplitN(c.Origin, ":", 2)[0])
+		o := c.Origin
+		if strings.HasPrefix(o, "mutation:") {
+			o = "mutation"
+		}
+		labels = append(labels, "origin:"+o)
 	}
 	labels = dedup(labels)
 	nt := o.Get("calls") >= 1 && o.Get("hits") >= 1
@@ -412,7 +416,10 @@ func validUTF8(s string) bool {
 // grammar
 
 func newGen(t *rapid.T) *gen {
-	return &gen{t: t, taints: map[string]taint{}, maxDepth: 1 + rapid.IntRange(0, 3).Draw(t, "maxdepth")}
+	g := &gen{t: t, taints: map[string]taint{}}
+	g.maxDepth = 1 + g.intn(4, "maxdepth")
+	g.wild = g.pct(35, "wild")
+	return g
 }
 
 func (g *gen) switches(c *Case) {
@@ -432,6 +439,9 @@ func (g *gen) contexts(c *Case) {
 func genGrammar(t *rapid.T) Case {
 	g := newGen(t)
 	c := Case{Obs: pbt.NewObs(), Origin: "grammar"}
+	if g.wild {
+		c.Origin = "grammar:wild"
+	}
 	tmpl, _ := g.template()
 	c.Template = pbt.S(tmpl)
 	c.Fns = g.fnSeen
